@@ -321,7 +321,7 @@ func (t *fnTrans) assumeType(x string, ty types.Type) {
 			t.assume("(and (<= " + lo + " " + x + ") (<= " + x + " " + hi + "))")
 		}
 	case *types.Slice:
-		t.assume(fmt.Sprintf("(and (<= 0 (sl_off %s)) (<= 0 (sl_len %s)) (<= (sl_len %s) (sl_cap %s)) (<= (sl_cap %s) 140737488355328) (<= 0 (sl_arr %s)) (<= (sl_arr %s) %s))", x, x, x, x, x, x, x, t.h.get(t.cur, "alloc")))
+		t.assume(fmt.Sprintf("(and (<= 0 (sl_off %s)) (<= 0 (sl_len %s)) (<= (sl_len %s) (sl_cap %s)) (<= (sl_cap %s) 140737488355328) (<= (sl_arr %s) %s))", x, x, x, x, x, x, t.h.get(t.cur, "alloc"))) // arrays embedded in struct fields have negative ids
 	case *types.Pointer, *types.Chan, *types.Map, *types.Signature:
 		t.assume(fmt.Sprintf("(and (<= 0 %s) (<= %s %s))", x, x, t.h.get(t.cur, "alloc")))
 	case *types.Interface:
@@ -375,9 +375,24 @@ func bare(s string) string { return strings.ReplaceAll(s, "|", "") }
 
 func (t *fnTrans) elemHV(elem types.Type) string {
 	s := t.sortOf(elem)
-	hv := "E:" + bare(s)
+	hv := t.g.elemHVName(t.c, elem)
 	t.h.reg(hv, "(Array Int (Array Int "+s+"))")
 	return hv
+}
+
+// elemHVName: the heap variable holding the elements of arrays whose element type is elem.
+// Integers of every width share E:Int (conversions between byte-like types keep the array);
+// references are kept apart by their Go type: a []*context and a []byte never share an array,
+// so a callee that rewrites a slice of pointers leaves every byte buffer alone.
+func (g *Gen) elemHVName(c *FnCtx, elem types.Type) string {
+	s := bare(g.sortOf(c, elem))
+	if s == "Int" {
+		switch elem.Underlying().(type) {
+		case *types.Pointer, *types.Chan, *types.Map, *types.Signature:
+			return "E:Int:" + sanitize(g.typeKey(elem))
+		}
+	}
+	return "E:" + s
 }
 
 func (t *fnTrans) cellHV(ty types.Type) string {
@@ -721,7 +736,43 @@ func (t *fnTrans) run() {
 		}
 	}
 	t.missingSites()
+	t.frameCheck()
 	t.finishNames()
+}
+
+// frameCheck: a `modifies` clause is used as the frame of every call of the function, so the body
+// must respect it: every heap variable the body (transitively, syntactically) may store to has
+// to be listed.  Without this the clause would be an unchecked assumption.
+func (t *fnTrans) frameCheck() {
+	fc := t.contract
+	if fc == nil || !fc.hasMods {
+		return
+	}
+	allowed := map[string]bool{}
+	for _, v := range t.modVars(fc, t.fn) {
+		allowed[v] = true
+	}
+	s := t.g.summaries[t.fn]
+	mk := func(disc, note string) {
+		o := t.oblige("frame", disc, t.fn.Pos(), "false", note)
+		o.Trivial = false
+		o.Reach = "true"
+	}
+	if s == nil || s.all {
+		mk("writes:anything", "declared `modifies "+strings.Join(fc.modifies, " ")+"` but the body (or something it calls) may write any heap location")
+		return
+	}
+	var vs []string
+	for v := range s.vars {
+		vs = append(vs, v)
+	}
+	sort.Strings(vs)
+	for _, v := range vs {
+		if allowed[v] || v == "alloc" || v == "held" || v == "rheld" || strings.HasPrefix(v, "ghost:") || strings.HasPrefix(v, "RV:") {
+			continue
+		}
+		mk("writes:"+v, "declared `modifies "+strings.Join(fc.modifies, " ")+"` but the body (or something it calls) may write "+v)
+	}
 }
 
 // missingSites: every site a contract clause is attached to must exist in the code.
@@ -751,6 +802,11 @@ func (t *fnTrans) missingSites() {
 	for n, sls := range fc.loopEnsures {
 		for _, sl := range sls {
 			loopClause(n, sl, "ensures")
+		}
+	}
+	for n, sls := range fc.loopOver {
+		for _, sl := range sls {
+			loopClause(n, sl, "over")
 		}
 	}
 	for n := range fc.loopComplete {
